@@ -3,8 +3,9 @@ import plugincheck
 
 THEOREMS = ["sticky_filter", "sticky_bind", "sticky_ranges", "dp_takes_reserve", "dp_takes_reserve_reachable",
             "pools_routable_reachable", "routable_loaded", "dp_waits_for_its_ip", "dp_offered_only_below_replicas",
-            "dp_filter_then_bind_uses_reserve", "dp_waits_nonvacuous", "dp_filter_then_bind_nonvacuous"]
-REFUTED = ["sticky_ranges_overlap_refuted"]
+            "dp_filter_then_bind_uses_reserve", "dp_waits_nonvacuous", "dp_filter_then_bind_nonvacuous",
+            "restart_keeps_configured_allocations", "reload_keeps_configured_allocations", "restart_keeps_configured_nonvacuous"]
+REFUTED = ["sticky_ranges_overlap_refuted", "restart_keeps_exact_entry_refuted"]
 KNOWN_FINDINGS = []
 
 MANIFEST = {
